@@ -11,7 +11,9 @@ enum {
 	K_ANTI_BEFORE_EXTRACT, K_ANTI_AFTER_PROCESS, K_ANTI_REQUEUED, K_GVT_ROUNDS, K_FOSSILS, K_FOSSIL_THEN_RB, K_TIES, K_IDENT_TIES,
 	K_ZERO_DELAY, K_BIG_PAYLOAD, K_THREADS_GT_LPS, K_EVENTS_REF, K_STOP_RUNS, K_TT_RUNS, K_TRUE_AT_INIT, K_TRUE_AT_T0,
 	K_SPEC_TRUE_ROLLED_BACK, K_LIB_DRAWS, K_MEM_OPS, K_OTHER_PROP_FAIL, K_HANGS, K_STEPS_K, K_SWITCHES_K, K_COMMITTED,
-	K_GVT_OPEN_AT_STOP, K_STATS_RECORDS, K_RB_DIGESTS, K_LEFTOVER, K_BUDGET, K_EARLY_END
+	K_GVT_OPEN_AT_STOP, K_STATS_RECORDS, K_RB_DIGESTS, K_LEFTOVER, K_BUDGET, K_EARLY_END,
+	K_RANKS, K_REMOTE_SENT, K_REMOTE_ANTI, K_EARLY_ANTI, K_EARLY_MATCH, K_REMOTE_ANTI_MATCHED, K_NET_DELAYED, K_NET_OVERTAKES,
+	K_NET_TEST_SKIPPED, K_NET_LEFTOVER, K_CROSS_RANK_REF
 };
 
 struct rt_cfg {
@@ -22,6 +24,9 @@ struct rt_cfg {
 	uint64_t prng_seed;
 	int mode;
 	struct rsv_sched sched;
+	/* E4 */
+	unsigned ranks;
+	unsigned net_delay_max, net_delay_prob, net_test_skip, net_reorder;
 };
 
 struct rt_ctx {
